@@ -35,27 +35,31 @@ func (p ArrayPattern) Bind(ctx context.Context, local Scope, value Value) (conte
 			array, array.offset, p)
 	}
 
+	// Patterns are positional: a hole in the array still occupies its index, so work with the number
+	// of positions, not the number of items.
+	length := len(array.Values())
+
 	extraElements := make(map[int]int)
 	for i, item := range p.items {
 		if _, is := item.pattern.(ExtraElementPattern); is {
 			if len(extraElements) == 1 {
 				return ctx, EmptyScope, fmt.Errorf("non-deterministic pattern is not supported yet")
 			}
-			extraElements[i] = array.Count() - len(p.items)
+			extraElements[i] = length - len(p.items)
 		}
 		if item.fallback != nil {
 			if len(extraElements) == 1 {
 				return ctx, EmptyScope, fmt.Errorf("non-deterministic pattern is not supported yet")
 			}
-			extraElements[i] = array.Count() - len(p.items)
+			extraElements[i] = length - len(p.items)
 		}
 	}
 
-	if len(p.items) > array.Count()+len(extraElements) {
+	if len(p.items) > length+len(extraElements) {
 		return ctx, EmptyScope, fmt.Errorf("length of array %s shorter than array pattern %s", array, p)
 	}
 
-	if len(extraElements) == 0 && len(p.items) < array.Count() {
+	if len(extraElements) == 0 && len(p.items) < length {
 		return ctx, EmptyScope, fmt.Errorf("length of array %s longer than array pattern %s", array, p)
 	}
 
@@ -67,10 +71,15 @@ func (p ArrayPattern) Bind(ctx context.Context, local Scope, value Value) (conte
 			offset = extraElements[i]
 			arr := NewArray()
 			if offset >= 0 {
-				arr = NewArray(array.Values()[i : i+offset+1]...)
+				rest := array.Values()[i : i+offset+1]
+				if len(rest) > 0 && (rest[0] == nil || rest[len(rest)-1] == nil) {
+					// An array cannot begin or end with a hole, so the captured items could not be put back.
+					return ctx, EmptyScope, fmt.Errorf("array %s has a hole next to the items matched by ... in array pattern %s", array, p)
+				}
+				arr = NewArray(rest...)
 			}
 			value = arr
-		} else if array.Count() <= i+offset {
+		} else if length <= i+offset {
 			if item.fallback == nil {
 				return ctx, EmptyScope, fmt.Errorf("length of array %s shorter than array pattern %s", array, p)
 			}
@@ -81,6 +90,9 @@ func (p ArrayPattern) Bind(ctx context.Context, local Scope, value Value) (conte
 			}
 		} else {
 			value = array.Values()[i+offset]
+			if value == nil {
+				return ctx, EmptyScope, fmt.Errorf("array %s has no item at index %d for array pattern %s", array, i+offset, p)
+			}
 		}
 
 		var scope Scope
